@@ -4,3 +4,4 @@ import PsycheModel.Props.C20
 import PsycheModel.TextTable
 import PsycheModel.Lemmas.TextTable
 import PsycheModel.Props.C18
+import PsycheModel.Props.C17
